@@ -214,6 +214,45 @@ def fam_hostile(ck, sc, i):
     return secrets_of(sh, ['psk-of-alice-73a9c1e5', 'psk-of-bob-0d4f8b26'], dh_log=S.W.dh_log), {'family': 'hostile+lossy', 'actions': sim.case['actions'][:20]}, S.W.internal_errors
 
 
+def fam_send_failures(ck, sc, i):
+    """Two adverse events at once: a request is not answered (so it is retransmitted) AND transmissions fail locally (sendto raises: one-shot at each position of the
+    sequence, or persistently), in every kind of exchange including the initial ones. The failure paths of sending log at ERROR; no record shows a key."""
+    rng = ck.rng('sendfail', i)
+    kw = dict(dpd=6, lifetime=3600)
+    kind = ('initial', 'dpd', 'acquire', 'expire_soft', 'rekey_ike', 'expire_hard', 'delete_ike')[i % 7]
+    s = walk.Scenario(ck.seed * 61 + i, [], kw, handshake=kind != 'initial')
+    sim = s.sim
+    sh = SH.Shadow(S.W.dh_log, None, check_dh=False)
+    peer = str(s.b.addrs[0])
+    err = rng.choice([101, 113, 1, 105, 90, 'gaierror', 'no-errno', 'timeout'])
+    pattern = ('every-second', 'persistent', 'first-retransmission-only', 'all-but-the-first')[(i // 7) % 4]
+    s.trigger('A', 'acquire' if kind == 'initial' else kind)
+    sim.net.clear()                                   # the request is lost
+    k0 = s.a.sendto_calls
+    failed = [0]
+
+    def on_step(s_, ep, rec):
+        failed[0] += sum(1 for f_ in (rec.faults or []) if f_[0] == 'sendto')
+    sim.monitors.append(on_step)
+    if pattern == 'persistent':
+        s.a.sendto_persistent[peer] = err
+    elif pattern == 'every-second':
+        for k in range(k0, k0 + 12, 2):
+            s.a.sendto_faults[k] = err
+    elif pattern == 'first-retransmission-only':
+        s.a.sendto_faults[k0] = err
+    else:
+        for k in range(k0 + 1, k0 + 12):
+            s.a.sendto_faults[k] = err
+    for _ in range(30):
+        sim.tick_all(1.0)
+        sim.net[:] = [d for d in sim.net if d.src != str(s.a.addrs[0])]      # A's datagrams are lost; B's own traffic (DPD) is delivered and fails at A's sendto
+        sim.drain()
+    ck.count('send_failures.failed_transmissions', failed[0])
+    sh.feed(sim.wire)
+    return secrets_of(sh, ['psk-of-alice-73a9c1e5', 'psk-of-bob-0d4f8b26'], dh_log=S.W.dh_log), {'family': 'send-failures', 'request': kind, 'pattern': pattern, 'errno': err}, S.W.internal_errors
+
+
 def fam_configuration(ck, sc, i):
     """What pyikev2.py logs at ERROR when a configuration cannot be loaded: 'Configuration error: <text of the exception>'. The text must not show a PSK or key
     material of ANY connection of the file (the broken value may be the PSK itself)."""
@@ -249,7 +288,20 @@ def fam_configuration(ck, sc, i):
         c_[au]['psk'] = v_
         secrets[v_ if isinstance(v_, bytes) else str(v_[0] if isinstance(v_, list) else v_).encode()] = 'psk'
         ck.count('configuration.secret_that_yaml_read_as_a_non_string')
-    c19.mutate(rng, conf)
+    if i % 4 == 1:
+        # two entries for one pair of addresses (a copied entry kept "for reference", the same address in another spelling): legal, the later one is used
+        name0 = rng.choice(list(conf))
+        dup = copy.deepcopy(conf[name0])
+        for au in ('my_auth', 'peer_auth'):
+            if 'psk' in dup[au]:
+                dup[au]['psk'] = 'newer-' + str(rng.randrange(10 ** 8))
+                secrets[dup[au]['psk'].encode()] = 'psk'
+        spell = lambda a_: ipaddress.ip_address(a_).exploded if ':' in a_ and rng.random() < 0.7 else a_
+        dup['my_addr'], dup['peer_addr'] = spell(dup['my_addr']), spell(dup['peer_addr'])
+        conf[name0 + '-again'] = dup
+        ck.count('configuration.two_entries_for_one_pair_of_addresses')
+    else:
+        c19.mutate(rng, conf)
     if i % 3 == 0:
         # a broken value in the LAST connection: everything before it (secrets included) has been read by then
         last = list(conf.values())[-1]
@@ -318,12 +370,12 @@ def fam_configuration_file(ck, sc, i):
     return secrets, {'family': 'configuration-file', 'kind': kind, 'file': text, 'exit': r.returncode}, [{'type': 'process-output', 'msg': ln} for ln in out.splitlines()]
 
 
-FAMILIES = [('success', fam_success), ('configuration', fam_configuration), ('configuration-file', fam_configuration_file), ('auth-failure', fam_impostor), ('mismatch', fam_mismatch), ('kernel-refusal', fam_kernel_faults), ('startup-refusal', fam_startup_refusals), ('hostile+lossy', fam_hostile)]
+FAMILIES = [('success', fam_success), ('configuration', fam_configuration), ('configuration-file', fam_configuration_file), ('auth-failure', fam_impostor), ('mismatch', fam_mismatch), ('kernel-refusal', fam_kernel_faults), ('startup-refusal', fam_startup_refusals), ('hostile+lossy', fam_hostile), ('send-failures', fam_send_failures)]
 
 
 def run(ck):
     thorough = ck.thorough()
-    per = {'success': 40, 'auth-failure': 120, 'mismatch': 40, 'kernel-refusal': 120, 'hostile+lossy': 60, 'configuration': 400, 'configuration-file': 48, 'startup-refusal': 40}
+    per = {'success': 40, 'auth-failure': 120, 'mismatch': 40, 'kernel-refusal': 120, 'hostile+lossy': 60, 'configuration': 400, 'configuration-file': 48, 'startup-refusal': 40, 'send-failures': 56}
     if thorough:
         per = {k: v * 60 for k, v in per.items()}
     n = 0
@@ -362,6 +414,8 @@ def verdict(ck):
     for f, _fn in FAMILIES:
         ck.floor(f'histories of family {f}', c[f'histories.{f}'], 20)
     ck.floor('daemon start-ups on a file that must be refused, ended with an ERROR record', c['configuration_file.refused_with_an_error_record'], 30)
+    ck.floor('transmissions that failed locally while a request was being retransmitted', c['send_failures.failed_transmissions'], 150)
+    ck.floor('configurations with two entries for one pair of addresses', c['configuration.two_entries_for_one_pair_of_addresses'], 60)
     ck.floor('configurations rejected with secrets in the file', c['configuration.rejected'], 100)
     ck.floor('configurations whose secret was read by YAML as a number, a date or binary', c['configuration.secret_that_yaml_read_as_a_non_string'], 20)
     ck.floor('start-ups with a refused kernel request', c['startup_refusal.injected'], 20)
